@@ -236,6 +236,13 @@ pub fn real_peek(cpu: &Cpu, addr: u32) -> Option<u8> {
         _ => None,
     }
 }
+thread_local! {
+    static WRITE_PANICS: std::cell::RefCell<Vec<(u32, crate::util::PanicInfo)>> = std::cell::RefCell::new(vec![]);
+}
+pub fn take_write_panics() -> Vec<(u32, crate::util::PanicInfo)> {
+    WRITE_PANICS.with(|w| std::mem::take(&mut *w.borrow_mut()))
+}
+
 pub fn real_poke(cpu: &mut Cpu, addr: u32, v: u8) {
     // Through the emulator's own write path wherever that has no side effect the properties speak
     // of (memory, vector area, plain I/O register locations): an implementation may keep caches -
@@ -243,8 +250,22 @@ pub fn real_poke(cpu: &mut Cpu, addr: u32, v: u8) {
     // monitor that wrote behind its back would then see stale behaviour that no guest could cause.
     // Port DDR/DR and the timer block are written directly (their write path announces, latches,
     // reconfigures - the checks that want that call Bus::write themselves).
-    if !crate::refmodel::mem::is_special_io(addr) && locate(addr).is_some() && cpu.bus.write(addr, v).is_ok() {
-        return;
+    if !crate::refmodel::mem::is_special_io(addr) && locate(addr).is_some() {
+        match catch_unwind(AssertUnwindSafe(|| cpu.bus.write(addr, v).is_ok())) {
+            Ok(true) => return,
+            Ok(false) => {}
+            Err(_) => {
+                // remembered (once per location) and reported by main as a finding of the running check
+                if let Some(p) = take_panic() {
+                    WRITE_PANICS.with(|w| {
+                        let mut w = w.borrow_mut();
+                        if w.len() < 16 && !w.iter().any(|(a, _)| *a == addr) {
+                            w.push((addr, p));
+                        }
+                    });
+                }
+            }
+        }
     }
     let slot = match locate(addr) {
         Some((0, o)) => cpu.bus.exception_handling_vector.get_mut(o),
@@ -564,6 +585,9 @@ impl Lock {
             (Outcome::Ok(_), RealOutcome::Err(_)) if step.odd_pc => {}
             (Outcome::Ok(_), RealOutcome::Err(e)) => diffs.push(Diff::RealErr(e.clone())),
             (Outcome::Err(_), RealOutcome::Ok(_)) => diffs.push(Diff::RealOk),
+            // the reference executes the instruction, the emulator panicked: whatever C15 makes of
+            // the panic, the instruction did not do what its own property says
+            (Outcome::Ok(_), RealOutcome::Panic(p)) if !step.odd_pc => diffs.push(Diff::RealErr(format!("PANIC at {}:{}: {}", p.file, p.line, p.msg))),
             _ => {}
         }
         let model_writes: Vec<(u32, u8)> = self.mem.wlog[setup_mark..].iter().map(|(a, _)| (*a, self.mem.peek(*a).unwrap_or(0))).collect();
@@ -873,6 +897,9 @@ impl Sess {
             (Outcome::Ok(_), RealOutcome::Err(_)) if step.odd_pc => {}
             (Outcome::Ok(_), RealOutcome::Err(e)) => diffs.push(Diff::RealErr(e.clone())),
             (Outcome::Err(_), RealOutcome::Ok(_)) => diffs.push(Diff::RealOk),
+            // the reference executes the instruction, the emulator panicked: whatever C15 makes of
+            // the panic, the instruction did not do what its own property says
+            (Outcome::Ok(_), RealOutcome::Panic(p)) if !step.odd_pc => diffs.push(Diff::RealErr(format!("PANIC at {}:{}: {}", p.file, p.line, p.msg))),
             _ => {}
         }
         let model_writes: Vec<(u32, u8)> = self.mem.wlog.iter().map(|(a, _)| (*a, self.mem.peek(*a).unwrap_or(0))).collect();
